@@ -51,3 +51,12 @@ Section ExtractTmp.
       let fs3 := fs_set (fs_set fs2 name (fs2 tmp)) tmp None in
       (fs3, asm_res).
 End ExtractTmp.
+
+(* The seeded variant that extracts "in place" when the destination is not a regular file: for a destination
+   that is a symlink AssembleFile opens the path, i.e. writes the file the link points to ([target]), and
+   there is no temp file and no rename. *)
+Definition write_through_link (target : path) (new_ino : nat) (asm_data : bytes) (asm_res : result)
+                              (fs : fsys) : fsys * result :=
+  let old := fs target in
+  let ino := match old with Some f => f_ino f | None => new_ino end in
+  (fs_set fs target (Some {| f_ino := ino; f_data := asm_data |}), asm_res).
